@@ -21,6 +21,7 @@ import VsgModel.Generated.CaseRules
 import VsgProofs.Lemmas.BaseCaseTok
 import VsgProofs.Lemmas.BaseCaseAscii
 import VsgProofs.Lemmas.BaseStructDispatch
+import VsgProofs.Lemmas.BaseMultiDispatch
 namespace Vsgm.C03
 open Vsgm
 
@@ -753,9 +754,9 @@ theorem fixByOwner_struct (owner : String) (params action : Base.KV) (old : List
     (h : owner ∉ Base.earlierOwners) :
     Base.fixByOwner owner params action old = Base.fixStruct Base.stdEnv owner params action old := by
   simp only [Base.earlierOwners, List.mem_append, not_or] at h
-  obtain ⟨⟨⟨⟨⟨⟨⟨⟨⟨⟨⟨⟨⟨⟨h1, h2⟩, h3⟩, h4⟩, h5⟩, h6⟩, h7⟩, h8⟩, h9⟩, h10⟩, h11⟩, h12⟩, h13⟩, h14⟩, h15⟩ := h
+  obtain ⟨⟨⟨⟨⟨⟨⟨⟨⟨⟨⟨⟨⟨⟨⟨h1, h2⟩, h3⟩, h4⟩, h5⟩, h6⟩, h7⟩, h8⟩, h9⟩, h10⟩, h11⟩, h12⟩, h13⟩, h14⟩, h15⟩, h16⟩ := h
   unfold Base.fixByOwner
-  simp only [h1, h2, h3, h4, h5, h6, h7, h8, h9, h10, h11, h12, h13, h14, h15, if_false]
+  simp only [h1, h2, h3, h4, h5, h6, h7, h8, h9, h10, h11, h12, h13, h14, h15, h16, if_false]
 
 /-- `multiline_alignment_between_tokens` (10 rules), `multiline_array_alignment`,
     `multiline_conditional_alignment`, `align_consecutive_lines_after_line_starting_with_token_and_stopping_with_token`:
@@ -794,5 +795,197 @@ theorem struct_owners_used : ∀ o ∈ Base.SOwner.all, ∃ r ∈ Gen.ruleTable,
   decide +kernel
 
 /-! ### END ag_bstruct -/
+
+/-! ### BEGIN ag_bmulti (multi-line structure family: multiline_structure, fix.py, single rules) -/
+
+open Base.Multi in
+/-- **multiline_structure** (concurrent_012, sequential_009, variable_assignment_008, constant_016), every
+    `dAction["type"]` function and every action string — the effect of the branch that runs:
+    `insert` branches and unknown action strings are layout-only; a `remove` branch (`[first, last]`) is
+    layout-only EXACTLY when nothing but layout stood between the first and the last token of the region;
+    `_fix_assign_on_single_line` is layout-only when the region holds no `parser.comment` instance;
+    `insert_and_move_comment` is a rotation `t0 :: M ++ D ↦ t0 :: D ++ [line break] ++ M` -/
+theorem bfix_multiStruct_effect (params action : Base.KV) (old new : List Tok)
+    (h : Base.fixByOwner (MOwner.name .multiStruct) params action old = some (.ok new)) :
+    ∃ ty f act, dget action "type" = .ok ty ∧ msFnOf ty = .ok f ∧ dget action "action" = .ok act ∧
+      match msKind f act with
+      | .insert => LayoutOnly old new
+      | .noop => new = old
+      | .collapse => 2 ≤ old.length → (LayoutOnly old new ↔ ∀ t ∈ middle old, t.isLayout = true)
+      | .join => new = joinAssign old ∧ ((∀ t ∈ old, Base.LineStruct.isCommentInst t = false) → LayoutOnly old new)
+      | .moveComment => ∃ t0 M D, LayoutOnly old (t0 :: M ++ D) ∧ new = t0 :: D ++ Base.LineStruct.mkCr Base.lineCls :: M := by
+  have hm := run_fixM .multiStruct params action old new (mowner_all _) h
+  obtain ⟨ty, f, act, h1, h2, h3, he⟩ := fixMS_effect _ _ action old new hm
+  refine ⟨ty, f, act, h1, h2, h3, ?_⟩
+  cases hk : msKind f act <;> simp only [hk] at he ⊢
+  · exact he.1
+  · intro hlen; exact collapse_layoutOnly _ old new he hlen
+  · exact he
+  · exact ⟨he, fun hno => by rw [he]; exact joinAssign_layoutOnly old hno⟩
+  · exact he
+
+open Base.Multi in
+/-- **multiline_simple_structure** (concurrent_011, sequential_008, variable_assignment_007): "insert" is
+    layout-only; "remove" is layout-only EXACTLY when nothing but layout stood between the assignment
+    operator and the first token of the expression — a comment there is deleted (`simple_commentLost`
+    in C02) -/
+theorem bfix_simple_effect (params action : Base.KV) (old new : List Tok)
+    (h : Base.fixByOwner (MOwner.name .simple) params action old = some (.ok new)) :
+    ∃ ty, dget action "type" = .ok ty ∧
+      ((valIs ty "new_line_after_assign" = false ∧ new = old) ∨
+       (valIs ty "new_line_after_assign" = true ∧ ∃ act, dget action "action" = .ok act ∧
+          match simpleKind ty act with
+          | .insert => LayoutOnly old new
+          | .collapse => 2 ≤ old.length → (LayoutOnly old new ↔ ∀ t ∈ middle old, t.isLayout = true)
+          | _ => new = old)) := by
+  have hm := run_fixM .simple params action old new (mowner_all _) h
+  obtain ⟨ty, h1, hc⟩ := fixSimple_effect _ action old new hm
+  refine ⟨ty, h1, ?_⟩
+  rcases hc with hc | ⟨ht, act, ha, he⟩
+  · exact Or.inl hc
+  · refine Or.inr ⟨ht, act, ha, ?_⟩
+    have hkinds : simpleKind ty act = .insert ∨ simpleKind ty act = .collapse ∨ simpleKind ty act = .noop := by
+      unfold simpleKind; simp only [ht, if_true]
+      by_cases a1 : valIs act "insert" = true
+      · simp [a1]
+      · by_cases a2 : valIs act "remove" = true <;> simp [a1, a2]
+    rcases hkinds with hk | hk | hk <;> simp only [hk] at he ⊢
+    · exact he.1
+    · intro hlen; exact collapse_layoutOnly _ old new he hlen
+    · exact he
+
+open Base.Multi in
+/-- **vsg/rules/fix.py** (multiline_subprogram_specification_structure, multiline_constraint_structure,
+    multiline_procedure_call_structure; 6 rules), all three actions and any other action string: layout-only
+    when the region holds no preprocessor token (`remove_trailing_whitespace` deletes a trailing one) -/
+theorem bfix_fixpy_layoutOnly_partial (o : MOwner) (ho : o.usesFixPy = true) (params action : Base.KV) (old new : List Tok)
+    (h : Base.fixByOwner o.name params action old = some (.ok new)) (hp : ∀ t ∈ old, t.kind ≠ .preproc) :
+    LayoutOnly old new := by
+  have hm := run_fixM o params action old new (mowner_all _) h
+  cases o <;> simp [MOwner.usesFixPy] at ho <;> exact fixNL_layoutOnly _ action old new hm hp
+
+open Base.Multi in
+/-- the rules that only insert a line break or resize / insert one whitespace token —
+    conditional_waveforms_001, concurrent_008, after_002 — for every action: layout-only -/
+theorem bfix_multi_inserters_layoutOnly (o : MOwner) (ho : o = .condWave001 ∨ o = .concurrent008 ∨ o = .after002)
+    (params action : Base.KV) (old new : List Tok)
+    (h : Base.fixByOwner o.name params action old = some (.ok new)) : LayoutOnly old new := by
+  have hm := run_fixM o params action old new (mowner_all _) h
+  rcases ho with rfl | rfl | rfl
+  · exact (fixCondWave_spec _ old new hm).1
+  · exact fixAlignComment_layoutOnly _ _ action old new hm
+  · exact fixAlignComment_layoutOnly _ _ action old new hm
+
+open Base.Multi in
+/-- **process_021** (`blank_line` group, phase 1): style require_blank_line is layout-only; style
+    no_blank_line is layout-only when every blank_line token of the region is directly followed by its
+    line break (the fix deletes each blank_line token together with WHATEVER token follows it —
+    `process021_deletes_code`) -/
+theorem bfix_process021_layoutOnly_partial (params action : Base.KV) (old new : List Tok)
+    (h : Base.fixByOwner (MOwner.name .process021) params action old = some (.ok new))
+    (hg : blankThenCr old = true) : LayoutOnly old new := by
+  have hm := run_fixM .process021 params action old new (mowner_all _) h
+  obtain ⟨st, _, hc⟩ := fixProcess021_cases _ params old new hm
+  rcases hc with ⟨_, h1⟩ | ⟨_, _, h1⟩ | ⟨_, _, h1⟩
+  · exact (dropBlankAndNext_layoutOnly old new h1 hg).1
+  · exact insertBlankBeforeLast_layoutOnly _ old new h1
+  · rw [h1]; exact Base.LineStruct.LayoutOnly.rfl' _
+
+open Base.Multi in
+/-- without the guard the statement is false: a blank_line token followed by code takes the code
+    token with it -/
+theorem process021_deletes_code :
+    let old : List Tok := [⟨4, .blank, []⟩, ⟨9, .code, "begin".toList⟩]
+    Base.fixByOwner (MOwner.name .process021) [("style", .str "no_blank_line".toList)] [] old = some (.ok []) ∧
+      blankThenCr old = false ∧ ¬ LayoutOnly old [] := by
+  refine ⟨by decide +kernel, by decide, by decide⟩
+
+open Base.Multi in
+/-- **process_026 / process_027** (`blank_line` group, phase 3): action "Insert" is layout-only for every
+    index; the removing branch returns `old[:start] ++ old[end:]`, which (for `start ≤ end`, both within
+    the region) is layout-only EXACTLY when the cut holds nothing but layout -/
+theorem bfix_process026_027_effect (o : MOwner) (ho : o = .process026 ∨ o = .process027)
+    (params action : Base.KV) (old new : List Tok)
+    (h : Base.fixByOwner o.name params action old = some (.ok new)) :
+    LayoutOnly old new ∨ new = old ∨
+      ∃ sv ev sb eb, dget action "start" = .ok sv ∧ dget action "end" = .ok ev ∧ asBound sv = .ok sb ∧
+        asBound ev = .ok eb ∧ new = sliceTo old sb ++ sliceFrom old eb := by
+  have hm := run_fixM o params action old new (mowner_all _) h
+  rcases ho with rfl | rfl
+  · obtain ⟨a, _, hc⟩ := fixProcess026_cases _ action old new hm
+    rcases hc with ⟨_, h1⟩ | ⟨_, h1⟩
+    · exact Or.inl (insertBlankAt_eq _ action old new h1).1
+    · exact Or.inr (Or.inr (cutOut_eq action old new h1))
+  · obtain ⟨a, _, hc⟩ := fixProcess027_cases _ action old new hm
+    rcases hc with ⟨_, h1⟩ | ⟨_, _, h1⟩ | ⟨_, _, h1⟩
+    · exact Or.inl (insertBlankAt_eq _ action old new h1).1
+    · exact Or.inr (Or.inr (cutOut_eq action old new h1))
+    · exact Or.inr (Or.inl h1)
+
+/-- the cut of the removing branch: layout-only iff nothing but layout is cut (cut points `s ≤ e`) -/
+theorem bfix_cut_layoutOnly_iff (old : List Tok) (s e : Nat) (hse : s ≤ e) :
+    LayoutOnly old (old.take s ++ old.drop e) ↔ ∀ t ∈ (old.take e).drop s, t.isLayout = true :=
+  Base.Multi.cut_layoutOnly_iff old s e hse
+
+open Base.Multi in
+/-- **the aligners that set a token value without looking at the token** — signal_012 (`lTokens[1]`),
+    library_009 (`lTokens[0]`), process_028 (`lTokens[-2]`): layout-only when the token written to is a layout
+    token (signal_012: or the region has exactly two tokens; the two comment aligners: or the action is
+    "insert") -/
+theorem bfix_multi_aligners_layoutOnly_partial (params action : Base.KV) (old new : List Tok) :
+    (Base.fixByOwner (MOwner.name .signal012) params action old = some (.ok new) →
+      (old.length = 2 ∨ ∃ t, Base.pyGet old 1 = .ok t ∧ t.isLayout = true) → LayoutOnly old new) ∧
+    (Base.fixByOwner (MOwner.name .alignCommentAbove) params action old = some (.ok new) →
+      ((∃ a, dget action "action" = .ok a ∧ valIs a "insert" = true) ∨ ∃ t, Base.pyGet old 0 = .ok t ∧ t.isLayout = true) →
+      LayoutOnly old new) ∧
+    (Base.fixByOwner (MOwner.name .alignLeftRight) params action old = some (.ok new) →
+      ((∃ a, dget action "action" = .ok a ∧ valIs a "insert" = true) ∨ ∃ t, Base.pyGet old (-2) = .ok t ∧ t.isLayout = true) →
+      LayoutOnly old new) := by
+  refine ⟨fun h hg => ?_, fun h hg => ?_, fun h hg => ?_⟩
+  · exact fixSignal012_layoutOnly _ action old new (run_fixM .signal012 params action old new (mowner_all _) h) hg
+  · have hs := fixSetWs_layoutOnly _ 0 action old new (run_fixM .alignCommentAbove params action old new (mowner_all _) h)
+    rcases hg with ⟨a, ha, hi⟩ | hg
+    · exact hs.1 a ha hi
+    · exact hs.2 hg
+  · have hs := fixSetWs_layoutOnly _ (-2) action old new (run_fixM .alignLeftRight params action old new (mowner_all _) h)
+    rcases hg with ⟨a, ha, hi⟩ | hg
+    · exact hs.1 a ha hi
+    · exact hs.2 hg
+
+open Base.Multi in
+/-- the guard is needed: the three aligners overwrite a CODE token with blanks when the action points at one -/
+theorem multi_aligners_not_layoutOnly :
+    let old : List Tok := [⟨9, .code, ",".toList⟩, ⟨9, .code, "sig".toList⟩, ⟨9, .code, "b".toList⟩]
+    let adj : Base.KV := [("action", .str "adjust".toList), ("whitespace", .str "  ".toList)]
+    (∃ new, Base.fixByOwner (MOwner.name .signal012) [] [("adjust", .int 1)] old = some (.ok new) ∧ ¬ LayoutOnly old new) ∧
+    (∃ new, Base.fixByOwner (MOwner.name .alignCommentAbove) [] adj old = some (.ok new) ∧ ¬ LayoutOnly old new) ∧
+    (∃ new, Base.fixByOwner (MOwner.name .alignLeftRight) [] adj old = some (.ok new) ∧ ¬ LayoutOnly old new) := by
+  refine ⟨⟨[⟨9, .code, ",".toList⟩, ⟨9, .code, "    ".toList⟩, ⟨9, .code, "b".toList⟩], by decide +kernel, by decide⟩,
+    ⟨[⟨9, .code, "  ".toList⟩, ⟨9, .code, "sig".toList⟩, ⟨9, .code, "b".toList⟩], by decide +kernel, by decide⟩,
+    ⟨[⟨9, .code, ",".toList⟩, ⟨9, .code, "  ".toList⟩, ⟨9, .code, "b".toList⟩], by decide +kernel, by decide⟩⟩
+
+/-- **table**: every rule served by a model of this family.  None of them has an edit class in the
+    certificate checker (`editClassOfOwner = .none`: the checker demands code-sequence equality, which is
+    why after_001 / after_003 / process_029 are known findings).  The five aligners serve `alignment` rules
+    of phases 4–5, process_021/026/027 serve `blank_line` rules (phase 1 resp. 3), every other owner serves
+    `structure` rules of phase 1 — with ONE exception, constant_016, a `structure` rule that runs in phase 5 -/
+theorem multi_owners_rule_table : ∀ r ∈ Gen.ruleTable, ∀ o, Base.Multi.mownerOf r.fixVOwner = some o →
+    Verdict.editClassOfOwner r.fixVOwner = .none ∧
+    (o ∈ [Base.Multi.MOwner.concurrent008, .after002, .signal012, .alignCommentAbove, .alignLeftRight] →
+      Verdict.effectOfGroups r.groups = .layout ∧ (r.phase = 4 ∨ r.phase = 5)) ∧
+    (o ∈ [Base.Multi.MOwner.process021, .process026, .process027] →
+      Verdict.effectOfGroups r.groups = .layout ∧ (r.phase = 1 ∨ r.phase = 3)) ∧
+    (o ∉ [Base.Multi.MOwner.concurrent008, .after002, .signal012, .alignCommentAbove, .alignLeftRight, .process021,
+        .process026, .process027] →
+      Verdict.effectOfGroups r.groups = .any ∧ (r.phase = 1 ∨ (r.id = "constant_016" ∧ r.phase = 5))) := by
+  decide +kernel
+
+/-- every modelled owner serves at least one rule (no dead model); 28 rules in all -/
+theorem multi_owners_used :
+    (∀ o ∈ Base.Multi.MOwner.all, ∃ r ∈ Gen.ruleTable, Base.Multi.mownerOf r.fixVOwner = some o) ∧
+    (Gen.ruleTable.filter fun r => (Base.Multi.mownerOf r.fixVOwner).isSome).length = 28 := by
+  decide +kernel
+
+/-! ### END ag_bmulti -/
 
 end Vsgm.C03
